@@ -801,10 +801,18 @@ Fixpoint desugar (s : sx) : expr :=
   | SComp e k v target cond => EComp (desugar e) k v (desugar target) (option_map desugar cond)
   end.
 
-(* the surface tree without sugar and without parentheses of an AST (scalar constants only) *)
+(* a folded (literal-only) container constant written out as the literal it was folded from *)
+Fixpoint cembed (c : const) : sx :=
+  match c with
+  | CArr l => SArr (map (fun x : const => (false, cembed x)) l) false
+  | CMap m => SMap (map (fun kv : mkey * const => match kv with (k, x) => (Some k, cembed x) end) m) false
+  | _ => SConst c
+  end.
+
+(* the surface tree without sugar and without parentheses of an AST *)
 Fixpoint embed (e : expr) : sx :=
   match e with
-  | EConst c => SConst c
+  | EConst c => cembed c
   | EVar x => SVar x
   | EAttr e a opt => SAttr (embed e) a opt
   | EItem e i opt => SItem (embed e) (embed i) opt
